@@ -95,8 +95,24 @@ pub enum G {
     /// the model treats them as `Any` / `Select`
     AnyRef,
     SelectRef(Pred, Fn1),
+    /// `(Prog (op ..) k)`: `custom(|inp| ..)` running a straight-line program over `InputRef`'s public API
+    Prog(Vec<Cop>, usize),
     /// `(Padded ws a)`: `a.padded()`; `ws` = the whitespace characters of the alphabet in use (checked against `char::is_whitespace`)
     Padded(Vec<u32>, Box<G>),
+}
+
+/// One instruction of a `(Prog ops k)` custom parser (coq/Model/Syntax.v `cop`).
+#[derive(Clone, Debug, PartialEq)]
+pub enum Cop {
+    Next,
+    NextRef,
+    Peek,
+    Skip,
+    Save,
+    Rewind,
+    Expect(u32),
+    Span,
+    State,
 }
 
 #[derive(Clone, Copy, Debug, PartialEq)]
@@ -126,6 +142,8 @@ pub enum IT {
     IRepCfg(G, usize, Option<usize>, usize),
     /// `(IIntoIter a)`: `a.map(val_items).into_iter()`
     IIntoIter(G),
+    /// `(IThen i j)`: `i.then(j)` used as an iterable (both halves out of `IRep | ISep | IOrNot`)
+    IThen(Box<IT>, Box<IT>),
 }
 
 #[derive(Clone, Copy, Debug, PartialEq, Eq, Hash)]
@@ -711,6 +729,27 @@ pub fn parse_g(tk: Tk, s: &Sexp) -> R<G> {
         ("ExtWrap", [a]) => G::ExtWrap(bg(a)?),
         ("Skip", [n]) => G::Skip(nat(n)?),
         ("Padded", [ws, a]) => G::Padded(toks(tk, ws)?, bg(a)?),
+        ("Prog", [ops, k]) => {
+            let ops = ops
+                .list()?
+                .iter()
+                .map(|o| match ctor(o) {
+                    Some(("CExpect", [t])) => Some(Cop::Expect(tok(tk, t)?)),
+                    _ => match o.atom()? {
+                        "CNext" => Some(Cop::Next),
+                        "CNextRef" => Some(Cop::NextRef),
+                        "CPeek" => Some(Cop::Peek),
+                        "CSkip" => Some(Cop::Skip),
+                        "CSave" => Some(Cop::Save),
+                        "CRewind" => Some(Cop::Rewind),
+                        "CSpan" => Some(Cop::Span),
+                        "CState" => Some(Cop::State),
+                        _ => None,
+                    },
+                })
+                .collect::<R<Vec<_>>>()?;
+            G::Prog(ops, nat(k)?)
+        }
         ("Lazy", [a]) => G::Lazy(bg(a)?),
         ("WithState", [k, a]) => G::WithState(k.nat()? as u64, bg(a)?),
         ("NestedDelims", [s, e, others]) => {
@@ -748,6 +787,7 @@ pub fn parse_it(tk: Tk, s: &Sexp) -> R<IT> {
         ("IMapWith", [m, i]) => IT::IMapWith(parse_mw(m)?, bit(i)?),
         ("IOrNot", [a]) => IT::IOrNot(parse_g(tk, a)?),
         ("IIntoIter", [a]) => IT::IIntoIter(parse_g(tk, a)?),
+        ("IThen", [i, j]) => IT::IThen(bit(i)?, bit(j)?),
         ("IRepCfg", [a, lo, hi]) => IT::IRepCfg(parse_g(tk, a)?, nat(lo)?, opt_nat(hi)?, 0),
         ("IRepCfg", [a, lo, hi, ck]) => IT::IRepCfg(parse_g(tk, a)?, nat(lo)?, opt_nat(hi)?, nat(ck)?),
         _ => return None,
@@ -761,7 +801,7 @@ impl G {
     pub fn has_fnew(&self) -> bool {
         let new = |f: &Fn1| *f == Fn1::New;
         match self {
-            G::End | G::Empty | G::Any | G::AnyRef | G::Just(_) | G::OneOf(_) | G::NoneOf(_) | G::Custom(..) | G::Skip(_) | G::NestedDelims(..) => false,
+            G::End | G::Empty | G::Any | G::AnyRef | G::Prog(..) | G::Just(_) | G::OneOf(_) | G::NoneOf(_) | G::Custom(..) | G::Skip(_) | G::NestedDelims(..) => false,
             G::JustCfg(_) | G::Var(_) => false,
             G::Select(_, f) | G::SelectRef(_, f) => new(f),
             G::Map(f, a) | G::TryMap(_, f, _, a) | G::TryMapWith(_, f, _, a) | G::MapCtx(f, a) => {
@@ -821,6 +861,7 @@ impl IT {
             IT::IRep(a, ..) | IT::IOrNot(a) | IT::IRepCfg(a, ..) | IT::IIntoIter(a) => a.has_fnew(),
             IT::ISep(a, sep, ..) => a.has_fnew() || sep.has_fnew(),
             IT::IEnum(i) | IT::IMapWith(_, i) => i.has_fnew(),
+            IT::IThen(i, j) => i.has_fnew() || j.has_fnew(),
             IT::IMap(f, i) => *f == Fn1::New || i.has_fnew(),
         }
     }
